@@ -5,15 +5,11 @@ package sod
 // C11 kernel — fieldIndex.Control() is true exactly for ordered indexes.
 func vhC11Control(kind string) {
 	n := vLen("n", 0, vBound("N", 4))
-	fd := FieldDescriptor{Path: "F", Type: kind}
-	fi := newFieldIndex(fd, 0, n)
 	vals := make([]interface{}, n)
 	for i := 0; i < n; i++ {
 		vals[i] = vhVal(kind, "v") // arbitrary order
-		f := &indexedField{Value: vals[i], ObjectId: uint64(i)}
-		fi.Index = append(fi.Index, f)
-		fi.objectIds[uint64(i)] = f
 	}
+	fi := vhRawIndex(kind, vals)
 	sorted := true
 	for i := 1; i < n; i++ {
 		sorted = vAnd(sorted, vNot(vhLess(vals[i-1], vals[i])))
@@ -69,7 +65,7 @@ func VH_C11_faults() {
 		s, err := db.Schema(&vObj{})
 		vAssert("C11.build.schema", err == nil)
 		for _, u := range rmIndex {
-			s.unindexByUUID(u)
+			s.ObjectIndex.deleteByUUID(u)
 		}
 	}
 	vAssert("C11.build.close", db.Close() == nil)
